@@ -202,6 +202,28 @@ fn main() {
         ctx.universe_isolated(&name, total, 5.0, 1024, body);
     }
 
+    // windows of 64 consecutive objects of the four fixtures (step 32) through the conversion battery, all key mods
+    {
+        let mut cases: Vec<(&'static str, usize)> = Vec::new();
+        for (path, _) in gen::fixture_paths() {
+            let n_obj = Beatmap::from_path(path).map(|m| m.hit_objects.len()).unwrap_or(0);
+            cases.extend((0..n_obj).step_by(32).map(|s| (path, s)));
+        }
+        let all_keys: Vec<ModSpec> = key_mods(true);
+        ctx.universe_isolated("fixture-windows/4-fixtures/64-objects-step-32", cases.len() as u64, 5.0, 1024, |idx, l| {
+            let (path, start) = cases[idx as usize];
+            let Some(map) = gen::fixture_window(path, start, 64) else { return };
+            if !battery::in_domain(&map) {
+                return;
+            }
+            l.nontrivial();
+            l.states(1);
+            let d = battery::run_conversions(&map, &all_keys, &|| l.heartbeat());
+            std::hint::black_box(d);
+            l.checked(1);
+        });
+    }
+
     // realistic domain under debug assertions + overflow checks
     let vdebug = PathBuf::from(std::env::var("VERIF_ROOT").unwrap_or_else(|_| "/verif".into())).join("target/vdebug/c05");
     ctx.set_worker_exe(Some(vdebug));
